@@ -34,8 +34,8 @@ class C14(Prop):
         # group "xproc": the same seeds, reference run only, in few long-lived interpreters with another hash seed:
         # every case there runs after a different set of earlier calls than in the main group
         if tier == "quick":
-            return {"nojit": dict(count=112, workers=15, seed_tag="all"),
-                    "xproc": dict(mode="nojit", count=112, workers=1, seed_tag="all", hashseed="4242"),
+            return {"nojit": dict(count=105, workers=15, seed_tag="all"),
+                    "xproc": dict(mode="nojit", count=105, workers=1, seed_tag="all", hashseed="4242"),
                     "_soft_deadline": 90}
         return {"nojit": dict(count=6000, workers=14, seed_tag="all"),
                 "xproc": dict(mode="nojit", count=6000, workers=2, seed_tag="all", hashseed="4242"),
